@@ -418,7 +418,7 @@ func (in *Interp) logged(get func() uint64) uint64 {
 
 func (in *Interp) newObj(v Value, t types.Type, site string) *Obj {
 	in.nobj++
-	return &Obj{id: in.nobj, val: v, typ: t, site: site}
+	return &Obj{id: in.nobj, val: v, typ: t, site: site, allocOp: in.curOp}
 }
 
 func (in *Interp) posStr(p token.Pos) string {
